@@ -321,7 +321,8 @@ func Run(r *vk.Run) {
 		go func() {
 			defer wg.Done()
 			for t := range ch {
-				enum(t.p, Case{Shape: t.shape, Mode: t.mode, Block: t.block, Redeliv: t.red}, 0)
+				c := Case{Shape: t.shape, Mode: t.mode, Block: t.block, Redeliv: t.red}
+				r.Guard(c, func() { enum(t.p, c, 0) })
 			}
 		}()
 	}
